@@ -175,4 +175,52 @@ func init() {
 			ruleLEX3(c)
 		},
 	})
+
+	register(&PropSpec{
+		ID:    "C03",
+		Level: "other",
+		Explanation: "Decided on the abstractly instantiated parser template (one model production per helper-rule kind and arity): the reduce sequence act -> pop(termCount) -> goto -> push with the data flow between them, the action call unconditional (ACT-1); argument j of a user action reads stack slot Peek(n-1-j) for arities 0, 1, 3 (ACT-2); the sugar shapes agree across the three siblings normalize() / RuleGenerated / template branches and getReduceTypeForGeneratedRule (ACT-3); stack values are asserted to the type they were pushed with (BIND-3). " +
+			"NOT decided: uniqueness of the derivation and left-to-right order on concrete inputs (follow from LR parsing given correct tables: C01/C04).",
+		Run: func(c *Ctx) {
+			ruleACT1(c)
+			ruleACT2(c)
+			ruleACT3(c)
+			ruleBIND3(c)
+		},
+	})
+	register(&PropSpec{
+		ID:    "C06",
+		Level: "other",
+		Explanation: "Decides the binding mechanism's structural conditions: the only go/types predicate deciding a parameter match is AssignableTo(type of term i, type of parameter i) after an arity test, over all candidate methods (BIND-1); each of the seven failure conditions is tested and reported with Errorf at the method/production concerned, and success is returned only without logged errors (BIND-2); every _cast of a stack slot uses the type that slot was pushed with, never the parameter type (BIND-3); stage order, go_type spelling types as given with the qualifier \"\" exactly for the own package, every import alias written (BIND-4). " +
+			"NOT decided: that the output compiles for every Go type shape (unexported or internal types of other packages, type parameters, vendoring).",
+		Run: func(c *Ctx) {
+			ruleBIND1(c)
+			ruleBIND2(c)
+			ruleBIND3(c)
+			ruleBIND4(c)
+		},
+	})
+	register(&PropSpec{
+		ID:    "C09",
+		Level: "other",
+		Explanation: "Decided on the parser template instances (both variants): lookahead typestate - every store to the lookahead symbol is a Token or an Error, so the unchecked assertions are reached only with the asserted dynamic type, checked per call site of _makeError (REC-1); parse returns true only through the accept branch, _recover succeeds only after installing (ERROR, Error) and queuing the real lookahead and fails only at EOF (REC-2); the Error is built from the offending lookahead before any token is skipped (REC-3); the recovery loops save/restore the stack around each attempt, pop one state per search step, skip lexer errors and consume a token per retry (REC-4). " +
+			"NOT decided: termination of reduce sequences and of the reduce-simulation loop (depends on the tables), correctness of that simulation, 'first token at which the input stops being a viable prefix', and progress ACROSS successive recoveries (see DESIGN.md: concrete non-terminating grammar found by a seeded-change author).",
+		Run: func(c *Ctx) {
+			ruleREC1(c)
+			ruleREC234(c)
+			ruleNUM3(c)
+		},
+	})
+	register(&PropSpec{
+		ID:    "C16",
+		Level: "other",
+		Explanation: "Decided on the template instance with the feature switch on: the switch is bound to 'parser type has a method named _onBounds' and the called name is the same constant (BND-1); in the reduce arm the children's bounds are taken before the pop, empty children trimmed at both ends, Begin/End from the first/last survivor, Empty iff none survives, _onBounds(res, Begin, End) called exactly once after the action under !Empty, the pushed item carries the bounds; a shifted symbol's bounds are its own token (BND-2); the feature-switched blocks only write what they declare, call only len/PeekSlice/_onBounds, contain no control transfer, and nothing outside reads their variables (BND-3). " +
+			"NOT decided: the spans reported on concrete inputs.",
+		Run: func(c *Ctx) {
+			ruleBND1(c)
+			ruleBND2(c)
+			ruleBND3(c)
+			ruleACT1(c)
+		},
+	})
 }
